@@ -1316,7 +1316,16 @@ impl Value {
         let slice = PaddedSliceRead::new(buffer.as_mut_slice());
         let mut parser = Parser::new(slice).with_config(cfg);
         let mut vis = DocumentVisitor::new(json.len(), smut);
-        parser.parse_dom(&mut vis)?;
+        if let Err(err) = parser.parse_dom(&mut vis) {
+            // strings before the error were unescaped in place in `buffer`: report the position
+            // (and the context) of the error in the original text
+            return Err(if err.line() != 0 {
+                let index = err.offset();
+                crate::Error::syntax(err.error_code(), json, index)
+            } else {
+                err
+            });
+        }
         let idx = parser.read.index();
 
         // NOTE: root node should is the first node
